@@ -668,12 +668,16 @@ def check_multi_chunk(col, tmp, klass, width, layout, relation):
                         zip(to_py(idx.chromosome), idx.length, idx.start, idx.characters_per_line, idx.line_length)]
             col.check(got_rows == rows, "multi-chunk:create_index:rows-differ-from-faidx", case,
                       "file of %d bytes: got %r expected %r" % (size, got_rows[:6], rows[:6]))
+        else:
+            # no index can be built (reported above): the access checks below run with a faidx-style index from the spec,
+            # so that one defect of the index builder stays one finding
+            write_fai(fai, rows)
         col.case({"k": "multi-chunk:written-fai", **case}, contract="written .fai == faidx rows of every record")
         f = col.guarded(lambda: bnp.open_indexed(fa), "multi-chunk:open_indexed", case)
         if f is None:
             return
         try:
-            if col.check(os.path.isfile(fai), "multi-chunk:written-index:no-fai-written", case, "no .fai next to the FASTA"):
+            if idx is not None and col.check(os.path.isfile(fai), "multi-chunk:written-index:no-fai-written", case, "no .fai next to the FASTA"):
                 got_rows = parse_fai(open(fai).read())
                 col.check(got_rows == rows, "multi-chunk:written-index:rows-differ-from-faidx", case,
                           "file of %d bytes: got %r expected %r" % (size, (got_rows or [])[:6], rows[:6]))
